@@ -55,7 +55,7 @@ TEXT["C03"] = dict(
          "step of the stream model) and proved equal to the model take, so the count clauses are theorems about the text (C03_code_take_is_model, "
          "C03_code_at_most_n, C03_code_fewer_only_if_exhausted, C03_code_all_for_negative_n, C03_code_take_never_panics); Mplus and Bind are translated too (their closures read into the "
          "defunctionalised thunks TMplus / TBind) and proved to be the model's mplus / bindk, panic-free, never running an immature cell they merely inspect (C03_code_mplus_is_model, "
-         "C03_code_bind_is_model, C03_code_suspensions_not_run), as are the goal constructors Disj and Conj (C03_code_disj_conj_are_eval, C03_code_disj_conj_return). Tie for Zzz, CallFresh and the programs built from all of these: exact cell traces + take(n) prefix/exact-n/determinism oracles on the "
+         "C03_code_bind_is_model, C03_code_suspensions_not_run), as are the goal constructors Disj, Conj, Zzz and CallFresh (C03_code_disj_conj_are_eval, C03_code_disj_conj_return, C03_code_zzz_fresh_are_eval). Tie for the programs built from all of these: exact cell traces + take(n) prefix/exact-n/determinism oracles on the "
          "real code, with process isolation so that a diverging implementation is an observation.",
     note=_PROG_NOTE + "; multiplicities in infinite streams are stated at set level (InStream), multisets for finite streams",
     technique="Coq proof (induction on the Den derivation with fairness lemmas; induction on take fuel) + translation of takeStream to Gallina on every run + differential cell-trace correspondence",
